@@ -213,3 +213,17 @@ def fast_trunk_net_equals_the_plain_trunk_net_end_to_end(S):
     # the fast path may keep a broadcastable leading axis of size 1 or B
     lead_one = of.shape[0].is_one
     S.forall("fast-path-equals-plain-path", Tensor(op), lambda q: zreal(op.at(q)) == zreal(of.at([() if lead_one else q[0], q[1], q[2], q[3]])))
+    # the plain network (trunk_input_copied=False) is for trunk inputs that DIFFER between the functions: its feature
+    # block (b, n) is a function of the location X[b, n] alone
+    S.ensure("flag-is-kept-by-the-network", S.getattr(plain, "trunk_input_copied") is False and S.getattr(fast, "trunk_input_copied") is True)
+    B2, n2 = S.int("B2", 1), S.int("n2", 1)
+    XA, XB = S.tensor("XA", [B, n, 1]), S.tensor("XB", [B2, n2, 1])
+    oa = S.method(plain, "forward", S.new(POINTS, XA, xs)).val
+    ob = S.method(plain, "forward", S.new(POINTS, XB, xs)).val
+    ia, ja, ib, jb = z3.Int("ia"), z3.Int("ja"), z3.Int("ib"), z3.Int("jb")
+    rng = [ia >= 0, ia < zint(B), ja >= 0, ja < zint(n), ib >= 0, ib < zint(B2), jb >= 0, jb < zint(n2)]
+    same_loc = zreal(XA.val.at([(ia,), (ja,), ()])) == zreal(XB.val.at([(ib,), (jb,), ()]))
+    if oa.rank == 4 and ob.rank == 4:
+        S.ensure("plain-network-block-b-n-depends-on-location-b-n-only", z3.And([zreal(oa.at([(ia,), (ja,), (c,), (k,)])) == zreal(ob.at([(ib,), (jb,), (c,), (k,)])) for c in range(2) for k in range(2)]), rng + [same_loc])
+    else:
+        S.ensure("plain-network-feature-tensor-has-rank-4", False)
